@@ -181,6 +181,7 @@ pub fn run(ctx: &Ctx) {
     ctx.run_sub("exact_blocks_dft_ops", t.pick(40_000, 400_000), 64, || strategy(&[Fam::Dft], 7), test);
     ctx.run_sub("exact_blocks_large_n", t.pick(2_000, 20_000), 64, || strategy(&[Fam::Ring, Fam::Norm, Fam::BigRing, Fam::BigNorm, Fam::Dft, Fam::Sample], 12), test);
     ctx.run_sub("histories_resize_deserialise_use", t.pick(20_000, 200_000), 32, hist_strategy, hist_test);
+    ctx.run_sub("scratch_arena_histories", t.pick(200_000, 2_000_000), 64, crate::c17arena::arena_strategy, crate::c17arena::arena_test);
     // pass 2: guard margins (assembly kernels)
     MARGIN_NOW.store(MARGIN, Ordering::Relaxed);
     ctx.run_sub("guard_margins_dft_ops", t.pick(20_000, 200_000), 64, || strategy(&[Fam::Dft], 10), test);
@@ -199,8 +200,9 @@ pub fn replay(ctx: &Ctx, sub: &str, case: &serde_json::Value) -> i32 {
     }
     match sub {
         "histories_resize_deserialise_use" => ctx.replay_case::<HistCase, _>(sub, case, hist_test),
+        "scratch_arena_histories" => ctx.replay_case::<crate::c17arena::ArenaCase, _>(sub, case, crate::c17arena::arena_test),
         _ => ctx.replay_case::<BeCase, _>(sub, case, test),
     }
 }
 
-pub const RULE: &str = "cases = registry operations of C07-C12 (all four backends, N from 1, odd limb counts, 1..3 columns, size < max_size, roomy and exact-size scratch) executed in the AddressSanitizer build with every operand and scratch window as an exact-size heap block; histories of set_size / reallocate_limbs / write_to + corrupted or valid read_from followed by use of every accessor and a HAL call; a second pass with patterned guard margins for assembly kernels. Oracle: no sanitizer report, guard regions intact, no panic. non-trivial = input != 0 (ops) / >= 2 history steps.";
+pub const RULE: &str = "cases = registry operations of C07-C12 (all four backends, N from 1, odd limb counts, 1..3 columns, size < max_size, roomy and exact-size scratch) executed in the AddressSanitizer build with every operand and scratch window as an exact-size heap block; histories of set_size / reallocate_limbs / write_to + corrupted or valid read_from followed by use of every accessor and a HAL call; histories of takes / splits (take_slice of three element types, take_vec_znx / scalar_znx / vec_znx_dft / vec_znx_big, split_at_mut with a take inside the split-off part, split_mut) on a scratch window of 0..4096 bytes starting at any alignment, against a byte-level model of the arena rule (64-byte re-alignment; a take that does not fit panics; regions and remainder inside the window, disjoint; available() equals the model); a second pass with patterned guard margins for assembly kernels. Oracle: no sanitizer report, guard regions intact, no panic. non-trivial = input != 0 (ops) / >= 2 history steps.";
